@@ -170,7 +170,7 @@ func main() {
 	// self-test mode: succeed iff every expected rule fires
 	if *expect != "" {
 		okAll := true
-		for _, want := range strings.Split(*expect, ",") {
+		for _, want := range strings.Split(*expect, ";;") {
 			rule, sub, _ := strings.Cut(want, ":")
 			hit := false
 			for _, f := range append(violations, knownHits...) {
